@@ -239,3 +239,27 @@ Definition shutdown_wait_ok (shutdown_returned export_returned : bool) (err : N)
                             (export_after_call_ns : Z) (late : nat) : bool :=
   shutdown_returned && export_returned && negb (err =? 0)%N &&
   (export_after_call_ns <=? 3 * NS_PER_S) && Nat.eqb late 0.
+
+(** Attempts take time too.  [dur k] = how long attempt k took; the clock is consistent with attempts and waits when
+    the first reading of iteration k comes after attempt k and each wait really lasts its length.  Then the limit
+    bounds everything spent so far - every attempt including the one that just failed, every wait - plus the
+    throttle about to be honoured.  (A loop that reads the clock BEFORE the attempt does not count a slow failing attempt.) *)
+Definition Clock_counts_attempts (elapsed1 elapsed2 backoff dur : nat -> Z) (outs : list outcome) : Prop :=
+  dur 0%nat <= elapsed1 0%nat /\
+  forall k, elapsed1 k <= elapsed2 k /\
+            elapsed2 k + Z.max (throttle_of (nth k outs OFinal)) (backoff k) + dur (S k) <= elapsed1 (S k).
+
+Fixpoint spent (dur : nat -> Z) (k : nat) (ws : list Z) (i : nat) : Z :=
+  dur k + match i, ws with
+          | S i', w :: ws' => w + spent dur (S k) ws' i'
+          | _, _ => 0
+          end.
+
+Definition Spent_within_limit (dur : nat -> Z) (max : Z) (outs : list outcome) (o : run_out) : Prop :=
+  forall i, (i < length (waits o))%nat ->
+            spent dur 0 (waits o) i + throttle_of (nth i outs OFinal) <= max.
+
+(** Slow retry-able replies (each attempt takes at least [delay], each asks for [delay] more, limit < 2 * delay): the
+    export gives up after the FIRST attempt with a max-retry-time error, within limit + 3 s. *)
+Definition slow_attempt_ok (max_ns : Z) (attempts : nat) (err : N) (elapsed_ns : Z) : bool :=
+  Nat.eqb attempts 1 && (err =? 2)%N && (elapsed_ns <=? max_ns + 3 * NS_PER_S).
